@@ -114,6 +114,24 @@ def run_one(s):
             tr["exc4"] = r[1] if len(r) > 1 else "hang"
         else:
             tr["bits4"], tr["shape4_ok"] = bits_of(r[1], len(coords))
+    # history on the SAME Points / parameter objects: the coordinates are overwritten in place (public assignment) and the query
+    # is repeated; the answer belongs to the current content
+    tr["bits5"], tr["shape5_ok"], tr["exc5"], tr["pts5"] = [], True, "", []
+    if tid % 3 == 0:
+        coords5 = lattice(e, tid + 1)
+        if len(coords5) == len(coords):
+            def again():
+                new = to_points(e, coords5)
+                for v in U.space_vars(e):
+                    pts[:, [v]] = new[:, [v]]
+                return dom._contains(pts, par)
+            r = watched(again)
+            if r[0] != "ok":
+                tr["exc5"] = r[1] if len(r) > 1 else "hang"
+            else:
+                tr["bits5"], tr["shape5_ok"] = bits_of(r[1], len(coords))
+                tr["pts5"] = [U.q_of(c, r_) for c, r_ in zip(coords5, rows)]
+            pts = to_points(e, coords)          # (the boundary queries below use the original lattice)
     # boundary object
     tr["bd"] = "none"
     if s.get("boundary"):
@@ -162,6 +180,27 @@ def run_one(s):
                         k += U.SPACES[v]
                     cs.append(U.q_of(c, row))
                 rec["pts"] = cs
+            tr["own"].append(rec)
+        # the same boundary 256 times larger: it accepts its own samples whatever the size of the shape (points scaled back for the oracle)
+        if tid % 2 == 0:
+            KS = 256.0
+            row = rows_for(names, 1, tid + 5)[0]
+            rec = {"kind": "random-scaled", "exc": "", "pts": [], "bits": []}
+
+            def own_scaled():
+                bS = U.build_scaled(e, KS).boundary
+                pS = Points(torch.tensor([[float(row[n_]) * KS for n_ in names]], dtype=torch.float32), U.mk_params(names, [row]).space) if names else Points.empty()
+                q = bS.sample_random_uniform(n=24, params=pS)
+                rp_ = Points(pS.as_tensor.repeat(len(q), 1), pS.space) if names else Points.empty()
+                return q, bS._contains(q, rp_)
+            r = watched(own_scaled, 6)
+            if r[0] != "ok":
+                rec["exc"] = "scaled:" + (r[1] if len(r) > 1 else "hang")
+            else:
+                q, bb = r[1]
+                rec["bits"], _ = bits_of(bb, len(q))
+                co = q.coordinates
+                rec["pts"] = [U.q_of({v: [float(x) / KS for x in co[v][i]] for v in vs}, row) for i in range(len(q))]
             tr["own"].append(rec)
     return tr
 
